@@ -29,6 +29,7 @@ type BankKnobs struct {
 	NoInvokeEK bool
 	PFault     int
 	PPanic     int
+	PSysClock  int // keep dig's system clock (Runtime only bounded)
 	PErr2      int // prefer an entry with two error results
 	PRepeat    int // allow a second instance of an already used entry (same code pointer)
 	PDefer     int
@@ -193,7 +194,7 @@ func (g *bankGen) decorate(f *Fn) {
 		}
 		if g.pct(g.bk.PFaultKind, "faultkind") {
 			f.EK = g.pick(3, "ek")
-			f.PK = g.pick(6, "pk")
+			f.PK = g.pick(8, "pk")
 		}
 	}
 	if g.pct(g.bk.PDur, "dur?") {
@@ -207,6 +208,7 @@ func GenBankCase(t *rapid.T, bk BankKnobs) *Case {
 	g := &bankGen{gen: base, bk: bk, used: map[int]int{}, lastErr: -1}
 	g.c.Cfg.Defer = g.pct(bk.PDefer, "defer")
 	g.c.Cfg.Recover = g.pct(bk.PRecover, "recover")
+	g.c.Cfg.SysClock = g.pct(bk.PSysClock, "sysclock")
 	nops := rapid.IntRange(bk.MinOps, bk.MaxOps).Draw(t, "nops")
 	for len(g.c.Ops) < nops {
 		// registrations dominate the first half of a history, invocations
